@@ -151,8 +151,14 @@ package tracing
 //@   assigns t.isTracing, t.tracingStartTime, key("O|tracing.runningTask|.toRecord")
 //@   label C36.starttracing.loop.shape
 //@   loop 0: invariant c36Shape(t) && c36AllSame(t)
+//@   label C36.starttracing.loop.started
+//@   loop 0: invariant forall k uint64 :: (k in t.tracingTasks) ==> (t.tracingTasks[k].started <==> old(t.tracingTasks[k].started))
 //@   label C36.starttracing.loop.marked
-//@   loop 0: invariant forall k uint64 :: (k in t.tracingTasks) ==> (t.tracingTasks[k].toRecord <==> (old(t.tracingTasks[k].toRecord) || (visited(k) && t.tracingTasks[k].started))) && (t.tracingTasks[k].started <==> old(t.tracingTasks[k].started))
+//@   loop 0: invariant forall k uint64 :: (k in t.tracingTasks) && t.tracingTasks[k].started ==> (t.tracingTasks[k].toRecord <==> (old(t.tracingTasks[k].toRecord) || visited(k)))
+// the placeholder conjunct carried through the loop (a postcondition after a loop is proved from the loop's invariants, so
+// code that marks a placeholder is refuted HERE, at `...inv.placeholder.atloop.preserved`)
+//@   label C36.starttracing.inv.placeholder.atloop
+//@   loop 0: invariant forall k uint64 :: (k in t.tracingTasks) && !t.tracingTasks[k].started ==> (t.tracingTasks[k].toRecord <==> old(t.tracingTasks[k].toRecord))
 
 // ---- StopTracing ----
 //@ fn (*DBTracer).StopTracing
